@@ -64,6 +64,54 @@ fn c07_header_full() {
 	forget(res);
 }
 
+fn expect_case<const L: usize, const B: usize>(expected: [u8; L]) -> (bool, bool) {
+	// B = L + 2 stream bytes, of which the first n are available
+	let b: [u8; B] = kani::any();
+	let n: usize = kani::any();
+	kani::assume(n <= B);
+	let mut r = &b[..n];
+	let res = peppi::io::verif::expect_bytes(&mut r, &expected[..]);
+	let mut same = n >= L;
+	let mut i = 0;
+	while i < L {
+		if i < n && b[i] != expected[i] {
+			same = false;
+		}
+		i += 1;
+	}
+	// Ok exactly when the stream holds all the expected bytes; a stream that ends early is an error
+	assert!(res.is_ok() == same);
+	if n < L {
+		assert!(res.is_err());
+	}
+	if res.is_ok() {
+		// and exactly those bytes were consumed
+		assert!(r.len() == n - L);
+	}
+	let flags = (res.is_ok(), res.is_err() && n + 1 == L);
+	forget(res);
+	flags
+}
+
+// @verif property=C07,C06 tier=quick mem=10 timeout=1200
+// @encodes peppi::io::expect_bytes (file signature, `metadata` key, the closing `}` that is the last read of a .slp file, the Arrow magic of .slpp frames)
+// @symbolic 330 stream length (0..=expected+2) and all stream bytes, for the four expected sequences peppi uses
+// @bound expected sequences of 1, 8, 10 and 11 bytes; streams of up to expected+2 bytes
+// @assume oracle: Ok iff the stream has at least expected.len() bytes and they are equal; Err on any shorter stream; exactly expected.len() bytes consumed
+// @stub alloc::fmt::format = returns an empty String
+#[kani::proof]
+#[kani::unwind(16)]
+#[kani::stub(alloc::fmt::format, format_stub)]
+fn c07_expect_bytes_total() {
+	let (ok1, short1) = expect_case::<1, 3>([0x7d]);
+	let (ok8, short8) = expect_case::<8, 10>([65, 82, 82, 79, 87, 49, 0, 0]);
+	let (ok10, short10) = expect_case::<10, 12>([0x08, 0x6d, 0x65, 0x74, 0x61, 0x64, 0x61, 0x74, 0x61, 0x7b]);
+	let (ok11, short11) = expect_case::<11, 13>(SIG);
+	kani::cover!(ok1 && ok8 && ok10 && ok11, "all four accepted");
+	kani::cover!(short1, "closing brace missing: empty stream");
+	kani::cover!(short8 && short10 && short11, "one byte short");
+}
+
 fn event_cut(code: u8, cut: Cut) {
 	let v = Version(3, 16, 0);
 	let mut state = free_state(v);
